@@ -3,7 +3,7 @@ loop-progress and recursion facts.  A site is keyed (function, kind, descriptor,
 import re
 from collections import defaultdict
 from ir import callee_of, callee_generic
-from flow import origins, is_local_op, call_matches, defs_of, const_val, source_names, resolve_place, forward_taint
+from flow import origins, is_local_op, call_matches, defs_of, const_val, source_names, resolve_place, forward_taint, deep_sources
 
 PANIC_CALLS = [
     (re.compile(r'Option::<T>::(unwrap|expect)$'), 'unwrap'),
@@ -73,8 +73,53 @@ class Site:
     def key(self):
         return '%s|%s|%s|#%d' % (self.b.short, self.kind, self.desc, self.ordinal)
 
+    def canon(self):
+        return canon_desc(self.desc)
+
+    def operand_names(self):
+        """user variable names of the operands of the panic-capable operation (for rename-tolerant guard facts)"""
+        b, t = self.b, self.term
+        out = set()
+        ops = []
+        if t['k'] == 'assert':
+            ops = [t.get(k) for k in ('a', 'b', 'index', 'len') if t.get(k) is not None]
+        elif t['k'] == 'call':
+            ops = list(t['args'])
+            for o, role in site_index_operands(b, self):
+                ops.append(o)
+        for o in ops:
+            if is_local_op(o):
+                n, c, f = deep_sources(b, o, depth=6)
+                out |= set(n)
+        return out - {'self'}
+
     def where(self):
         return self.b.where(self.pos)
+
+
+def canon_desc(desc):
+    """description of a site with the names of local variables replaced by `$`: `&rem.index<RangeFrom>` -> `&$.index<RangeFrom>`,
+    `Sub(comment_endpos,2_usize)` -> `Sub($,2_usize)`, `bytestr[_t]` -> `$[$]`; field paths after `self.` and method names stay"""
+    m = re.match(r'^(\w+)\((.*),(.*)\)$', desc)
+    def var(x):
+        x = x.strip()
+        if re.match(r'^\d', x) or x == '':
+            return x
+        return '$'
+    if m and m.group(1)[0].isupper():
+        return '%s(%s,%s)' % (m.group(1), var(m.group(2)), var(m.group(3)))
+    m = re.match(r'^([^\[\]]*)\[(.*)\]$', desc)
+    if m:
+        base = m.group(1)
+        base = base if base.startswith('self.') or base.startswith('len=') else '$'
+        return '%s[%s]' % (base, '$')
+    m = re.match(r'^(&?)(\w+)((?:\.\w+)*)\.(\w+(?:<\w+>)?)$', desc)
+    if m:
+        amp, root, path, meth = m.groups()
+        if root == 'self':
+            return desc
+        return '%s$%s.%s' % (amp, path, meth)
+    return desc
 
 
 def sites_in_body(b):
@@ -190,6 +235,9 @@ def auto_discharge(s):
         d = dominating_lt(b, s.pos, idx, ln)
         if d:
             return d
+    d = search_index_discharge(b, s)
+    if d:
+        return d
     if s.kind in ('remzero', 'divzero'):
         a = t['a']
         if isinstance(a, dict) and 'i' in a and int(a['i']) != 0:
@@ -204,6 +252,205 @@ def auto_discharge(s):
         if d:
             return d
     return None
+
+
+SEARCH_CALLS = r'Iterator>?::(position|rposition)$|<impl \[T\]>::(iter)$|<impl str>::(find|rfind)$|memchr|<impl \[T\]>::(partition_point|binary_search)'
+PREFIX_CALLS = r'<impl str>::(trim_end_matches|trim_end|trim_right_matches|strip_suffix|trim_right)$|<impl \[T\]>::(strip_suffix|trim_ascii_end)$'
+
+
+def site_receiver_names(b, s):
+    """user variable names of the indexed collection of a site (call based kinds: arg0; bounds asserts: the indexed place)"""
+    t = s.term
+    if t['k'] == 'call' and t['args']:
+        n, c, f = deep_sources(b, t['args'][0], depth=6)
+        return set(n) | {x.split('.')[-1] for x in f}
+    if t['k'] == 'assert' and t.get('mk') == 'bounds':
+        n, c, f = deep_sources(b, t['len'], depth=6) if is_local_op(t['len']) else (set(), set(), set())
+        return set(n) | {x.split('.')[-1] for x in f}
+    return set()
+
+
+def site_index_operands(b, s):
+    """[(operand, role)] role in {'index','start','end','end_incl'}"""
+    t = s.term
+    out = []
+    if t['k'] == 'assert' and t.get('mk') == 'bounds':
+        return [(t['index'], 'index')]
+    if t['k'] != 'call' or len(t['args']) < 2:
+        return out
+    a = t['args'][1]
+    got = False
+    for org in origins(b, a):
+        if org[0] not in ('param', 'const', 'place') and org[1].get('k') == 'assign' and org[1]['rv']['k'] == 'agg' and org[1]['rv'].get('adt') in ('Range', 'RangeFrom', 'RangeTo', 'RangeInclusive', 'RangeToInclusive'):
+            rv = org[1]['rv']
+            got = True
+            if rv['adt'] == 'Range':
+                out += [(rv['ops'][0], 'start'), (rv['ops'][1], 'end')]
+            elif rv['adt'] == 'RangeFrom':
+                out += [(rv['ops'][0], 'start')]
+            elif rv['adt'] == 'RangeTo':
+                out += [(rv['ops'][0], 'end')]
+            else:
+                out += [(o, 'end_incl') for o in rv['ops'][:2]]
+    if not got and is_local_op(a) and (b.local_ty(a['l']) or '') == 'usize':
+        out.append((a, 'index'))
+    return out
+
+
+def _search_derived(b, o, recv_names, plus_ok, depth=8):
+    """True iff operand o is (a copy of) the result of a search over the collection named by recv_names - position()/rposition()/
+    find()/rfind() - possibly unwrapped (pattern match on Some, unwrap, unwrap_or(len), `?`), possibly +1 when plus_ok; or the length
+    of a prefix of that collection (trim_end_matches / strip_suffix).  Such a value is < len (<= len with +1 / for a prefix)."""
+    if depth == 0 or not is_local_op(o):
+        return False
+    res = []
+    for org in origins(b, o):
+        if org[0] == 'param' or org[0] == 'const':
+            return False
+        if org[0] == 'place':
+            pl = org[1]
+            # (opt as Some).0  /  (cf as Continue).0
+            if any(x in ('as Some', 'as Continue') for x in pl['p']):
+                res.append(_search_derived(b, {'l': pl['l'], 'p': []}, recv_names, plus_ok, depth - 1))
+                continue
+            if pl['p'] and pl['p'][-1] == '.0' and 'l' in pl:
+                # checked arithmetic tuple
+                res.append(_search_derived(b, {'l': pl['l'], 'p': []}, recv_names, plus_ok, depth - 1))
+                continue
+            return False
+        st = org[1]
+        if st.get('k') == 'assign' and st['rv']['k'] == 'bin' and st['rv']['op'] in ('Add', 'AddWithOverflow', 'AddUnchecked'):
+            a_, b_ = st['rv']['a'], st['rv']['b']
+            c = b_ if not is_local_op(b_) else (a_ if not is_local_op(a_) else None)
+            v = a_ if c is b_ else b_
+            if c is None or not plus_ok or str(c.get('i')) != '1':
+                return False
+            res.append(_search_derived(b, v, recv_names, False, depth - 1))
+            continue
+        if st.get('k') == 'call':
+            if call_matches(st, r'Iterator>?::(position|rposition)$|<impl str>::(find|rfind)$'):
+                n, c, f = deep_sources(b, st['args'][0], depth=8)
+                names = set(n) | {x.split('.')[-1] for x in f}
+                res.append(bool(names & recv_names))
+                continue
+            if call_matches(st, r'Option::<T>::(unwrap|expect|unwrap_unchecked)$|Try>::branch$') and st['args']:
+                res.append(_search_derived(b, st['args'][0], recv_names, plus_ok, depth - 1))
+                continue
+            if call_matches(st, r'Option::<T>::(map_or|map)$') and len(st['args']) >= 2 and _closure_plus(b, st['args'][-1]) is not None:
+                # opt.map_or(0, |p| p + 1) / opt.map(|p| p + 1): the closure adds at most one to the position
+                plus = _closure_plus(b, st['args'][-1])
+                if plus and not plus_ok:
+                    return False
+                if call_matches(st, r'map_or$'):
+                    dflt = st['args'][1]
+                    ls = _len_source(b, dflt) if is_local_op(dflt) else None
+                    zero = (not is_local_op(dflt)) and str(dflt.get('i')) == '0'
+                    if not plus_ok or not (zero or (ls is not None and set(ls) & recv_names)):
+                        return False
+                res.append(_search_derived(b, st['args'][0], recv_names, plus_ok and not plus, depth - 1))
+                continue
+            if call_matches(st, r'Option::<T>::(unwrap_or|map_or)$') and len(st['args']) >= 2:
+                # the default must be the length of the collection (a valid end) - only meaningful for range ends
+                dflt = st['args'][1]
+                ls = _len_source(b, dflt)
+                if not plus_ok or ls is None or not (set(ls) & recv_names):
+                    return False
+                res.append(_search_derived(b, st['args'][0], recv_names, plus_ok, depth - 1))
+                continue
+            if call_matches(st, r'<impl str>::len$|<impl \[T\]>::len$') and st['args']:
+                # length of a prefix of the collection
+                n, c, f = deep_sources(b, st['args'][0], depth=8)
+                names = set(n) | {x.split('.')[-1] for x in f}
+                if plus_ok and any(re.search(PREFIX_CALLS, x or '') for x in c) and names & recv_names:
+                    res.append(True)
+                    continue
+                return False
+            return False
+        return False
+    return bool(res) and all(res)
+
+
+def _closure_plus(b, o):
+    """the closure passed as operand o returns its argument (0) or its argument + 1 (1); None for anything else"""
+    P = getattr(b, 'program', None)
+    if P is None or not is_local_op(o):
+        return None
+    for org in origins(b, o):
+        if org[0] in ('param', 'const', 'place') or org[1].get('k') != 'assign' or org[1]['rv']['k'] != 'agg' or org[1]['rv'].get('ak') != 'closure':
+            return None
+        cb = P.bodies.get(org[1]['rv'].get('fn'))
+        if cb is None or cb.argc != 2:
+            return None
+        plus = None
+        for o2 in origins(cb, {'l': 0, 'p': []}):
+            if o2[0] == 'param' and o2[1] == 2:
+                plus = max(plus or 0, 0)
+                continue
+            pl = o2[1] if o2[0] == 'place' else None
+            st = None
+            if pl is not None and pl['p'] == ['.0']:
+                ds = defs_of(cb, pl['l'])
+                st = ds[0][1] if len(ds) == 1 else None
+            elif o2[0] not in ('param', 'const', 'place'):
+                st = o2[1]
+            if st is not None and st.get('k') == 'assign' and st['rv']['k'] == 'bin' and st['rv']['op'] in ('Add', 'AddWithOverflow', 'AddUnchecked'):
+                a_, b_ = st['rv']['a'], st['rv']['b']
+                c = b_ if not is_local_op(b_) else (a_ if not is_local_op(a_) else None)
+                v = a_ if c is b_ else b_
+                if c is not None and str(c.get('i')) == '1' and is_local_op(v) and all(x[0] == 'param' and x[1] == 2 for x in origins(cb, v)):
+                    plus = 1
+                    continue
+            return None
+        return plus
+    return None
+
+
+def search_index_discharge(b, s):
+    if s.kind not in ('slice-index', 'str-index', 'vec-index', 'vec-position', 'bounds', 'slice-position'):
+        return None
+    recv = site_receiver_names(b, s) - {'self'}
+    if not recv:
+        return None
+    ops = site_index_operands(b, s)
+    if s.kind in ('vec-position', 'slice-position') and not ops and len(s.term['args']) >= 2:
+        ops = [(s.term['args'][1], 'index')]
+        nm = (callee_generic(s.term) or '').rsplit('::', 1)[-1]
+        if nm == 'insert':
+            ops = [(s.term['args'][1], 'end')]
+    if not ops:
+        return None
+    roles = [r for o, r in ops]
+    if 'start' in roles and 'end' in roles and any(r == 'start' and is_local_op(o) for o, r in ops):
+        return None        # a..b additionally needs a <= b, which two independent searches do not give
+    for o, role in ops:
+        if not is_local_op(o):
+            if role in ('start', 'end') and str(o.get('i')) == '0':
+                continue
+            return None
+        plus_ok = role in ('start', 'end')
+        if s.kind == 'str-index' and role in ('start', 'end'):
+            # +1 after a str::find is a char boundary only for a one-byte pattern; keep to the unshifted position and prefix lengths
+            if not (_search_derived(b, o, recv, False) or _prefix_len(b, o, recv)):
+                return None
+            continue
+        if not _search_derived(b, o, recv, plus_ok):
+            return None
+    return 'auto/index-from-search: every index/range bound is the result of position()/find() on the same collection (< len; +1 only for a range bound) or the length of one of its prefixes'
+
+
+def _prefix_len(b, o, recv):
+    for org in origins(b, o):
+        if org[0] in ('param', 'const', 'place'):
+            return False
+        st = org[1]
+        if st.get('k') == 'call' and call_matches(st, r'<impl str>::len$|<impl \[T\]>::len$') and st['args']:
+            n, c, f = deep_sources(b, st['args'][0], depth=8)
+            names = set(n) | {x.split('.')[-1] for x in f}
+            if any(re.search(PREFIX_CALLS, x or '') for x in c) and names & recv:
+                continue
+        return False
+    return True
+
 
 
 def _overflow_type(b, t):
